@@ -31,5 +31,23 @@ DirOK(e, mbr, unit, burst) ==
     /\ Eq(e.pir, DivSmall(bps, 8)) /\ Eq(e.cir, <<1>>)
     /\ Eq(e.pbs, IF IsZero(burst) THEN DefaultBurst ELSE burst)
 
+\* UP4: one cell of slice_tc_meter (unit: bytes) for both directions, at index (slice << 2) + default TC, holding the
+\* larger of the two converted rates with the burst posted for that direction.  Asserted when both rates are non-zero
+\* and fit 63 bits; a posted burst of zero is not constrained.
+\* (P4Runtime meter configurations are signed 64-bit: a posted burst of 2^63 bytes or more has no representation and
+\* is not constrained either)
+CellOK(c, mbr, unit, burst) ==
+  /\ Eq(c.pir, DivSmall(Converted(mbr, unit), 8)) /\ IsZero(c.cir)
+  /\ (IsZero(burst) \/ ~Fits63(burst)) \/ (~c.neg /\ Eq(c.pbs, burst))
+Up4OK(e) ==
+  LET ulb == Converted(e.ul, e.unit)  dlb == Converted(e.dl, e.unit)
+      C == {e.cells[i] : i \in 1..Len(e.cells)}
+      mine == {c \in C : c.idx = e.cellIdx} IN
+  (~IsZero(e.ul) /\ ~IsZero(e.dl) /\ Fits63(ulb) /\ Fits63(dlb)) =>
+    /\ Cardinality(mine) = 1
+    /\ \A c \in mine :
+         \/ Leq(dlb, ulb) /\ CellOK(c, e.ul, e.unit, e.ulBurst)
+         \/ Leq(ulb, dlb) /\ CellOK(c, e.dl, e.unit, e.dlBurst)
+
 MethodWrites(m) == m \in {"PUT", "POST"}
 =============================================================================
